@@ -145,7 +145,12 @@ def install():
 
 def plan(tier, rng, sl, nslices, stats):
     cfg = TIERS[tier]
-    for _ in range(cfg["random"]):
+    for i in range(cfg["random"]):
+        if i % 25 == 24:
+            c = gfa.large_case(rng)
+            c["words"] = 2
+            yield c
+            continue
         c = gfa.random_case(rng)
         c["words"] = cfg["words"]
         yield c
@@ -192,7 +197,7 @@ def run_case(c, stats):
                              "starts": [sorted(map(repr, ref.starts)), sorted(map(repr, want.starts))],
                              "finals": [sorted(map(repr, ref.finals)), sorted(map(repr, want.finals))]},
                             ["kind:" + kind, "form:" + str(c.get("form"))])
-    words = list(gfa.words_for(c, c.get("words", 3)))
+    words = list(gfa.words_for(c, c.get("words", 3))) + gfa.long_words(c)
     for i, w in enumerate(words):
         call(fa.accepts, values.word_form(w, i, wrap=Symbol))
     ok, d = call(fa.to_deterministic)
